@@ -122,7 +122,7 @@ def run(ck):
     ck.mc("MC_ApiRis", "MC_ApiRis_29.cfg", note="Ristretto API histories (decode, one-way map, + - neg, change of representative by E[4]): representative in 2E, encoding = ghost, equality = ghost equality", workers=8)
     if not quick:
         ck.mc("MC_ApiRis", "MC_ApiRis_101.cfg", note="same on the order-88 curve", workers=8, timeout=3000)
-    backends = ["s64", "v2"] if quick else ["s64", "s32", "f64", "f32", "v2", "v512"]
+    backends = ["s64", "s32", "v2"] if quick else ["s64", "s32", "f64", "f32", "v2", "v512"]
     bins = build_many([(b, True, "release", ()) for b in backends], jobs=3)
     ops = gen(ck.rng, quick)
     sp = os.path.join(ck.workdir, "script.ndjson")
